@@ -178,3 +178,19 @@ def link_budget_cases(repo="/repo"):
         for p in (top, top + "/f", top + "/../d/f", top + "/."):
             out.append((tree, p, n))
     return out
+
+
+def link_body_shape_cases():
+    """Deterministic cases for the *shape* of link bodies: empty components ("//", leading and trailing "/"), "." and ".."
+    inside a body, bodies that end in "/" on files, directories and other links -- walked bare, with more components, with a
+    trailing slash, and through a second link.  A trailing "/" in a body demands a directory exactly as it does in a path."""
+    tree = [["dir", H("root"), 0o755], ["dir", H("outside"), 0o755], ["file", H("root/file"), H("data"), 0o644],
+            ["dir", H("root/dir"), 0o755], ["file", H("root/dir/f"), H("x"), 0o644], ["dir", H("root/dir/sub"), 0o755],
+            ["symlink", H("root/fs"), H("file/")], ["symlink", H("root/afs"), H("/file/")], ["symlink", H("root/fss"), H("file//")],
+            ["symlink", H("root/fdot"), H("file/.")], ["symlink", H("root/ds"), H("dir/")], ["symlink", H("root/ads"), H("/dir//")],
+            ["symlink", H("root/dsl"), H("dir//sub")], ["symlink", H("root/ddot"), H("dir/./sub/..")], ["symlink", H("root/to_fs"), H("fs")],
+            ["symlink", H("root/to_ds_s"), H("ds/")], ["symlink", H("root/dangs"), H("nonexistent/")], ["symlink", H("root/lead"), H("//dir/f")],
+            ["symlink", H("root/dir/up_s"), H("../file/")], ["symlink", H("root/dir/up_ds"), H("../dir/sub/")]]
+    paths = ["fs", "afs", "fss", "fdot", "ds", "ads", "dsl", "ddot", "to_fs", "to_ds_s", "dangs", "lead", "dir/up_s", "dir/up_ds",
+             "fs/", "ds/", "ds/f", "ads/sub", "to_ds_s/f", "fs/x", "dir/up_ds/..", "ds/../file", "fs/..", "dir/up_s/.."]
+    return [(tree, p_) for p_ in paths]
